@@ -28,7 +28,7 @@ RULE = (
     "refs, arbitrary attributes) attached to nodes, supplied as string vs ast vs callable on two dataset objects with "
     "and without QMetaData, and hashed in a child process with another PYTHONHASHSEED. Different-structure pairs: every "
     "single edit of the query (rename name/attribute/keyword/parameter, constant value, constant type, operator, argument "
-    "order, drop argument, wrap/unwrap nesting, tuple<->list) enumerated exhaustively per query. Every pair is non-trivial; "
+    "order, drop argument, wrap/unwrap nesting, tuple<->list, and re-bracketing edits that keep the leaves and their order but move a list boundary: next sibling into the preceding call/tuple/list/boolean chain and back, currying f(a, b) <-> f(a)(b), re-association of arithmetic, a < b < c <-> a < (b < c), g() <-> g, last parameter -> keyword-only, item into a nested dict) enumerated exhaustively per query. Every pair is non-trivial; "
     "distinct by (query, edit) and (query, rendering)."
 )
 ASSUMPTIONS = [
@@ -140,6 +140,10 @@ def _lookalikes(s):
     return [t for t in dict.fromkeys(out) if t != s]
 
 
+REBRACKET = {"move-next-sibling-into-child", "move-last-grandchild-out", "curry-last-arg", "uncurry", "binop-reassociate", "compare-renest",
+             "compare-flatten", "call-without-args->callee", "last-param->keyword-only", "move-next-item-into-child-dict"}
+
+
 def edits(tree):
     """yield (description, mutated deep copy) for every single edit of the tree"""
     nodes = list(ast.walk(tree))
@@ -227,6 +231,88 @@ def edits(tree):
                 yield mut(lambda m, t: setattr(m, "body", m.body.value), "unwrap-body")
         if isinstance(n, ast.Subscript):
             yield mut(lambda m, t: (lambda a, b: (setattr(m, "value", b), setattr(m, "slice", a)))(m.value, m.slice) and None, "subscript-swap")
+    # re-bracketing edits: the same leaves in the same order, grouped differently (what an ambiguous serialisation of
+    # lists / nested nodes cannot tell apart)
+    LISTF = {ast.Call: "args", ast.Tuple: "elts", ast.List: "elts", ast.BoolOp: "values"}
+    for idx, n in enumerate(nodes):
+        f = LISTF.get(type(n))
+        if f is None:
+            continue
+        lst = getattr(n, f)
+        for i, c in enumerate(lst):
+            g = LISTF.get(type(c))
+            if g is None:
+                continue
+            if i + 1 < len(lst) and (not isinstance(n, ast.BoolOp) or len(lst) > 2):
+                # f(g(a), b, c) -> f(g(a, b), c): the next sibling becomes the child's last element
+                def into(m, t, f=f, g=g, i=i):
+                    sib = getattr(m, f).pop(i + 1)
+                    getattr(getattr(m, f)[i], g).append(sib)
+                yield mut(into, "move-next-sibling-into-child")
+            if getattr(c, g) and not (isinstance(c, ast.BoolOp) and len(getattr(c, g)) <= 2):
+                # f(g(a, b), c) -> f(g(a), b, c): the child's last element becomes the next sibling
+                def outof(m, t, f=f, g=g, i=i):
+                    last = getattr(getattr(m, f)[i], g).pop()
+                    getattr(m, f).insert(i + 1, last)
+                yield mut(outof, "move-last-grandchild-out")
+        if isinstance(n, ast.Call) and len(n.args) >= 2 and not n.keywords:
+            # f(a, b) -> f(a)(b): currying moves the boundary between two argument lists
+            def curry(m, t):
+                last = m.args.pop()
+                m.func = ast.Call(func=m.func, args=m.args, keywords=[])
+                m.args = [last]
+            yield mut(curry, "curry-last-arg")
+        if isinstance(n, ast.Call) and isinstance(n.func, ast.Call) and not n.keywords and not n.func.keywords:
+            def uncurry(m, t):
+                m.args = m.func.args + m.args
+                m.func = m.func.func
+            yield mut(uncurry, "uncurry")
+    for idx, n in enumerate(nodes):
+        if isinstance(n, ast.BinOp) and isinstance(n.left, ast.BinOp):
+            # (a + b) - c  ->  a + (b - c)
+            def reassoc(m, t):
+                a, op1, b, op2, c = m.left.left, m.left.op, m.left.right, m.op, m.right
+                m.left, m.op, m.right = a, op1, ast.BinOp(left=b, op=op2, right=c)
+            yield mut(reassoc, "binop-reassociate")
+        if isinstance(n, ast.Compare) and len(n.ops) >= 2:
+            # a < b < c  ->  a < (b < c)
+            def renest(m, t):
+                inner = ast.Compare(left=m.comparators[0], ops=m.ops[1:], comparators=m.comparators[1:])
+                m.ops, m.comparators = m.ops[:1], [inner]
+            yield mut(renest, "compare-renest")
+        if isinstance(n, ast.Compare) and len(n.ops) == 1 and isinstance(n.comparators[0], ast.Compare):
+            def flatten(m, t):
+                inner = m.comparators[0]
+                m.ops, m.comparators = m.ops + inner.ops, [inner.left] + inner.comparators
+            yield mut(flatten, "compare-flatten")
+        if isinstance(n, ast.Call) and not n.args and not n.keywords:
+            # g() -> g : a node whose list fields are all empty vs the bare callee
+            def uncall(m, t):
+                for p in ast.walk(t):
+                    for fld in p._fields:
+                        v = getattr(p, fld, None)
+                        if v is m:
+                            setattr(p, fld, m.func)
+                        elif isinstance(v, list):
+                            for k, c in enumerate(v):
+                                if c is m:
+                                    v[k] = m.func
+                return m.func if t is m else None
+            yield mut(uncall, "call-without-args->callee")
+        if isinstance(n, ast.Lambda) and len(n.args.args) >= 2 and not n.args.defaults:
+            # lambda a, b: ...  ->  lambda a, *, b: ...
+            def kwonly(m, t):
+                a = m.args.args.pop()
+                m.args.kwonlyargs.append(a)
+                m.args.kw_defaults.append(None)
+            yield mut(kwonly, "last-param->keyword-only")
+        if isinstance(n, ast.Dict) and len(n.keys) >= 2 and isinstance(n.values[0], ast.Dict):
+            # {'a': {'x': 1}, 'b': 2} -> {'a': {'x': 1, 'b': 2}}
+            def dict_into(m, t):
+                k, v = m.keys.pop(1), m.values.pop(1)
+                m.values[0].keys.append(k)
+                m.values[0].values.append(v)
+            yield mut(dict_into, "move-next-item-into-child-dict")
     # tuple <-> list, performed at the parent so that the node type changes
     for idx, n in enumerate(nodes):
         for f in getattr(n, "_fields", ()):
@@ -405,6 +491,9 @@ def check(case) -> Result:
         else:
             n_diff += 1
             r.extra_keys.append(f"ne|{text}|{desc}")
+            kind = desc.split("@")[0]
+            if kind in REBRACKET and ("edit:" + kind) not in r.labels:
+                r.labels.append("edit:" + kind)
             if h == h0:
                 return r.fail(f"edit {desc} changes the structure but not the hash: {text!r} vs {ast.unparse(ast.fix_missing_locations(mt))!r}")
     r.counts = {"pairs-equal-structure": n_eq, "pairs-different-structure": n_diff}
